@@ -802,7 +802,7 @@ fn passes(ctx: &Ctx) -> Vec<Pass> {
     let wide = vec![Op::Ins(2), Op::Upd(1), Op::Del(1), Op::Ins(1), Op::Upd(2), Op::Del(2), Op::Scan, Op::Get(1), Op::Get(2)];
     if ctx.quick() {
         vec![
-            Pass { name: "2h-core-len3", handles: 2, alphabet: core, max_len: 3, max_total: 6, auto_len_mixed: 2, auto_len_all: 2 },
+            Pass { name: "2h-core-len3", handles: 2, alphabet: core, max_len: 3, max_total: 6, auto_len_mixed: 1, auto_len_all: 2 },
             Pass { name: "2h-point-len3", handles: 2, alphabet: point, max_len: 3, max_total: 6, auto_len_mixed: 1, auto_len_all: 1 },
             Pass { name: "2h-wide-len2", handles: 2, alphabet: wide, max_len: 2, max_total: 4, auto_len_mixed: 2, auto_len_all: 1 },
         ]
@@ -877,65 +877,70 @@ impl Check for C08 {
         }
         let plant = Plant::from_ctx(ctx);
         let only_pass = ctx.opt("pass");
-        let mut unit = 0u64;
         let mut capped = false;
-        for pass in passes(ctx) {
-            if only_pass.map(|p| p != pass.name).unwrap_or(false) {
+        // all passes advance together: units (script tuples) of every pass, fewest statements first
+        let passes: Vec<Pass> = passes(ctx).into_iter().filter(|p| only_pass.map(|o| o == p.name).unwrap_or(true)).collect();
+        let scripts_of: Vec<Vec<Script>> = passes.iter().map(|p| gen_scripts(&p.alphabet, p.max_len)).collect();
+        let mut units: Vec<(usize, usize, Vec<usize>)> = vec![];
+        for (pi, pass) in passes.iter().enumerate() {
+            let scripts = &scripts_of[pi];
+            let tuples = pass.tuples(scripts);
+            rep.bound(&format!("pass:{}", pass.name), json!({"handles": pass.handles, "alphabet": pass.alphabet.iter().map(|o| St::Op(*o).name()).collect::<Vec<_>>(), "max_statements_per_script": pass.max_len, "max_statements_of_all_handles": pass.max_total, "longest_autocommit_only_script_next_to_a_transaction": pass.auto_len_mixed, "longest_scripts_when_no_handle_runs_a_transaction": pass.auto_len_all, "scripts": scripts.len(), "script_tuples": tuples.len()}));
+            for t in tuples {
+                units.push((t.iter().map(|&i| scripts[i].len()).sum(), pi, t));
+            }
+        }
+        units.sort();
+        let mut total_merges: BTreeMap<&'static str, u64> = BTreeMap::new();
+        for (unit, (total, pi, tup)) in units.iter().enumerate() {
+            let pass = &passes[*pi];
+            let ss: Vec<Script> = tup.iter().map(|&i| scripts_of[*pi][i].clone()).collect();
+            let lens: Vec<usize> = ss.iter().map(|s| s.len()).collect();
+            if !ctx.mine(unit as u64) || capped {
                 continue;
             }
-            let scripts = gen_scripts(&pass.alphabet, pass.max_len);
-            let n = scripts.len();
-            let tuples = pass.tuples(&scripts);
-            rep.bound(&format!("pass:{}", pass.name), json!({"handles": pass.handles, "alphabet": pass.alphabet.iter().map(|o| St::Op(*o).name()).collect::<Vec<_>>(), "max_statements_per_script": pass.max_len, "max_statements_of_all_handles": pass.max_total, "longest_autocommit_only_script_next_to_a_transaction": pass.auto_len_mixed, "longest_scripts_when_no_handle_runs_a_transaction": pass.auto_len_all, "scripts": n, "script_tuples": tuples.len()}));
-            let mut total_merges = 0u64;
-            for tup in &tuples {
-                let mine = ctx.mine(unit);
-                unit += 1;
-                let ss: Vec<Script> = tup.iter().map(|&i| scripts[i].clone()).collect();
-                let lens: Vec<usize> = ss.iter().map(|s| s.len()).collect();
-                if !mine || capped {
-                    continue;
-                }
-                if ctx.expired() {
-                    rep.capped(&format!("deadline reached in pass {}", pass.name));
-                    capped = true;
-                    continue;
-                }
-                let mut skip: Option<Vec<u8>> = None;
-                let mut merges = 0u64;
-                let nontrivial = ss.iter().any(|s| s.contains(&St::Begin) || s.iter().any(|x| matches!(x, St::Op(o) if o.is_write())));
-                all_merges(&lens, &mut |order| {
-                    merges += 1;
-                    if let Some(p) = &skip {
-                        if order.len() >= p.len() && &order[..p.len()] == p.as_slice() {
-                            rep.pruned(1);
-                            rep.count("merges_pruned_sharing_a_violating_prefix", 1);
-                            return;
-                        }
+            if ctx.expired() {
+                rep.capped(&format!("deadline reached at script tuples with {total} statements in all; all shorter tuples of every pass were completed"));
+                capped = true;
+                continue;
+            }
+            let mut skip: Option<Vec<u8>> = None;
+            let mut merges = 0u64;
+            let nontrivial = ss.iter().any(|s| s.contains(&St::Begin) || s.iter().any(|x| matches!(x, St::Op(o) if o.is_write())));
+            all_merges(&lens, &mut |order| {
+                merges += 1;
+                if let Some(p) = &skip {
+                    if order.len() >= p.len() && &order[..p.len()] == p.as_slice() {
+                        rep.pruned(1);
+                        rep.count("merges_pruned_sharing_a_violating_prefix", 1);
+                        return;
                     }
-                    skip = None;
-                    let case = Case { scripts: &ss, order };
-                    match run_merge(&ctx.scratch, &case, plant) {
-                        Ok(out) => {
-                            rep.case(vcore::util::hash_of(&(pass.name, tup, order)), nontrivial);
-                            rep.count(&format!("merges_run:{}", pass.name), 1);
-                            record(rep, &ss, order, &out);
-                            let stop = out.viol.as_ref().map(|v| v.step).or(out.stopped.as_ref().map(|s| s.0));
-                            if let Some(step) = stop {
-                                if step < order.len() {
-                                    skip = Some(order[..=step].to_vec());
-                                }
+                }
+                skip = None;
+                let case = Case { scripts: &ss, order };
+                match run_merge(&ctx.scratch, &case, plant) {
+                    Ok(out) => {
+                        rep.case(vcore::util::hash_of(&(pass.name, tup, order)), nontrivial);
+                        rep.count(&format!("merges_run:{}", pass.name), 1);
+                        rep.count(&format!("merges_run:total_statements={total}"), 1);
+                        record(rep, &ss, order, &out);
+                        let stop = out.viol.as_ref().map(|v| v.step).or(out.stopped.as_ref().map(|s| s.0));
+                        if let Some(step) = stop {
+                            if step < order.len() {
+                                skip = Some(order[..=step].to_vec());
                             }
                         }
-                        Err(e) => {
-                            rep.count("harness_errors", 1);
-                            rep.note(&format!("merge could not be run: {}", vcore::util::clip(&e, 160)));
-                        }
                     }
-                });
-                total_merges += merges;
-            }
-            rep.count(&format!("merges_enumerated_by_this_worker:{}", pass.name), total_merges);
+                    Err(e) => {
+                        rep.count("harness_errors", 1);
+                        rep.note(&format!("merge could not be run: {}", vcore::util::clip(&e, 160)));
+                    }
+                }
+            });
+            *total_merges.entry(pass.name).or_insert(0) += merges;
+        }
+        for (name, n) in total_merges {
+            rep.count(&format!("merges_enumerated:{name}"), n);
         }
     }
 
